@@ -226,6 +226,9 @@ def script(spec):
         if spec['mode'] == 'sp':
             L.append('add_searchpath 0 %s' % hx('sp1'))
             L.append('add_searchpath 0 %s' % hx('@CWD@/%s/sp2' % d))
+            if zlib.crc32(d.encode()) % 5 == 0:
+                for k in range(70):       # many more directories after them: the first ones still have precedence
+                    L.append('add_searchpath 0 %s' % hx('nodir%d' % k))
         L.append('mon')
         L.append('parse_buf 0 %s' % hx(fix(spec['top'])))
         L.append('mon')
